@@ -137,7 +137,7 @@ def _mk_edit(cid, opname, k):
 
 
 ACC_SRC = ('def f(a):  # hdr\n    """Doc\n    string."""\n    if a:  # c1\n        x = 1  # short\n    else:\n        y = [2,\n             3]  # c2\n'
-           '    return a  # r\nclass K:\n    v = 1\nz = f(1)  # end\n')
+           '    return a  # r\nclass K:\n    v = 1\nz = f(1)  # end\ntry:\n    t = 1\nexcept E:  # he\n    u = 2  # cu\nmatch z:\n    case 1:  # c1\n        w = 3  # cw\n')
 COMMENTS = ['a much longer comment than before', 'x', None]
 DOCS = ['New doc', 'Two\nlines "quoted" \\ back', None]
 
